@@ -370,6 +370,39 @@ def parse_xz(out, check, data):
         return "bad", "parser-exception:" + repr(e), None
 
 
+def stream_chunk_props(out, check):
+    """For a Stream that parse_xz accepted: every LZMA chunk as (offset of its first byte in the uncompressed data,
+    properties byte or None when the chunk reuses the previous properties), in stream order."""
+    res, pos, doff = [], 12, 0
+    while pos < len(out) and out[pos] != 0:
+        hs = (out[pos] + 1) * 4
+        p = pos + hs
+        while out[p] != 0:
+            c = out[p]
+            if c >= 0x80:
+                us = ((c & 0x1F) << 16) + (out[p + 1] << 8) + out[p + 2] + 1
+                cs = (out[p + 3] << 8) + out[p + 4] + 1
+                if c >= 0xC0:
+                    res.append((doff, out[p + 5]))
+                    p += 6 + cs
+                else:
+                    res.append((doff, None))
+                    p += 5 + cs
+                doff += us
+            else:
+                cs = (out[p + 1] << 8) + out[p + 2] + 1
+                p += 3 + cs
+                doff += cs
+        clen = p + 1 - (pos + hs)
+        pos = p + 1 + (-clen) % 4 + CHECK_SIZES[check]
+    return res
+
+
+def show_chunk_props(props):
+    """Same rendering as Model/XzStruct.lean `streamChunkProps`."""
+    return ",".join("%d:%s" % (o, "-" if b is None else str(b)) for o, b in props) if props else "-"
+
+
 def parse_lone_block(out, check, data):
     try:
         info, pos = parse_block(out, 0, check, data, 0)
